@@ -419,6 +419,13 @@ func (w *W) checkState(h *Handle, op string) {
 	want := h.M.Canon()
 	if g := model.CanonValue(got); g != want {
 		w.fail("state", op, map[string]string{"got": g, "want": want}, "after %s: handle %d (path %q) unpacks to\n   %s\nbut the reference tree says\n   %s", op, h.ID, h.M.Path("."), g, want)
+		return
+	}
+	// the same once more, telling empty lists from absent settings
+	if ws, ok := h.M.CanonStrict(); ok {
+		if gs := model.CanonValueStrict(got); gs != ws {
+			w.fail("state", op, map[string]string{"got": gs, "want": ws, "strict": "true"}, "after %s: handle %d (path %q) unpacks to\n   %s\nbut the reference tree says (empty lists told apart)\n   %s", op, h.ID, h.M.Path("."), gs, ws)
+		}
 	}
 }
 
@@ -947,7 +954,13 @@ func (w *W) opMerge() string {
 			}
 			key := strings.Join(p, ".")
 			last := p[len(p)-1]
-			if used[key] || used["**."+last] || used["~"+last] {
+			again := false
+			if used[key] && !used["**."+last] && t.Chance(1, 2, "field-opt-path-again") {
+				// the same path named by a later option (defaults first, the override after them): the later one counts
+				again = true
+				w.R.Probe("merge: the same path named by two per-field options")
+			}
+			if !again && (used[key] || used["**."+last] || used["~"+last]) {
 				continue
 			}
 			h := []model.Handling{model.HMerge, model.HReplace, model.HAppend, model.HPrepend}[t.Choose(4, "field-opt-policy")]
